@@ -829,28 +829,53 @@ func ruleC01Counters(p *Prog, a *Anchors, r *Report) {
 		for _, ci := range counters {
 			n++
 			key := p.FuncName(f) + ":carries " + st.Field(ci).Name()
-			carried := false
-			for _, b := range f.Blocks {
-				for _, in := range b.Instrs {
-					s, ok := in.(*ssa.Store)
-					if !ok {
-						continue
-					}
-					fa, ok := s.Addr.(*ssa.FieldAddr)
-					if !ok || fa.Field != ci || stripLoad(fa.X) != ssa.Value(fresh) {
-						continue
-					}
-					v := s.Val
-					if bo, isBo := v.(*ssa.BinOp); isBo && bo.Op == token.ADD {
-						v = bo.X
-					}
-					if u, isU := v.(*ssa.UnOp); isU && u.Op == token.MUL {
-						if fb, isF := u.X.(*ssa.FieldAddr); isF && fb.Field == ci && unspillParam(fb.X) == ssa.Value(parent) {
-							carried = true
+			// stores dst.field = src.field (+k) in fn, where dst/src are given as values of fn
+			var carriesIn func(fn *ssa.Function, dst, src ssa.Value, depth int) bool
+			carriesIn = func(fn *ssa.Function, dst, src ssa.Value, depth int) bool {
+				for _, b := range fn.Blocks {
+					for _, in := range b.Instrs {
+						switch x := in.(type) {
+						case *ssa.Store:
+							fa, ok := x.Addr.(*ssa.FieldAddr)
+							if !ok || fa.Field != ci || unspillParam(stripLoad(fa.X)) != dst {
+								continue
+							}
+							v := x.Val
+							if bo, isBo := v.(*ssa.BinOp); isBo && bo.Op == token.ADD {
+								v = bo.X
+							}
+							if u, isU := v.(*ssa.UnOp); isU && u.Op == token.MUL {
+								if fb, isF := u.X.(*ssa.FieldAddr); isF && fb.Field == ci && unspillParam(stripLoad(fb.X)) == src {
+									return true
+								}
+							}
+						case *ssa.Call:
+							// a helper that is handed both contexts (child.inheritCounters(parent))
+							callee := x.Common().StaticCallee()
+							if callee == nil || !p.InPkg(callee) || callee.Blocks == nil || depth > 1 {
+								continue
+							}
+							var pd, ps ssa.Value
+							for i, arg := range callArgs(x.Common()) {
+								if i >= len(callee.Params) {
+									break
+								}
+								switch unspillParam(stripLoad(arg)) {
+								case dst:
+									pd = callee.Params[i]
+								case src:
+									ps = callee.Params[i]
+								}
+							}
+							if pd != nil && ps != nil && carriesIn(callee, pd, ps, depth+1) {
+								return true
+							}
 						}
 					}
 				}
+				return false
 			}
+			carried := carriesIn(f, fresh, parent, 0)
 			if carried {
 				r.OK(key, p.Pos(f.Pos()), "the derived context continues the counter of the context it comes from")
 			} else {
